@@ -3,6 +3,7 @@ package ipc
 import (
 	"fmt"
 	"go/token"
+	"go/types"
 
 	"golang.org/x/tools/go/ssa"
 )
@@ -250,6 +251,37 @@ func runC01(c *Ctx) {
 			pos = append(pos, r.Instr)
 		}
 		c.Check("C01.R", "respChan:single-receive", p, posOf(pos), ok, "exactly one receive site, in ServeHTTP, outside any loop: a response object reaches at most one client", fmt.Sprintf("receive sites on respChan: %d (must be exactly one, in ServeHTTP, not in a loop)", len(recvs)))
+	}
+
+	// ---- C01.G
+	c.Rule("C01.G", "request IDs keep the full width of the generator: hex of the whole SHA-256 of a 63-bit draw", 2)
+	if f := c.need(p, "C01.G", "server.(*proxy).newID"); f != nil {
+		rs := Returns(f)
+		ok, why := false, "newID does not return fmt.Sprintf(\"%x\", <whole sha256 sum>)"
+		if len(rs) == 1 {
+			if sp := CallResult(ReturnValue(rs[0], 0), 0, "fmt.Sprintf"); sp != nil {
+				format, _ := ConstString(sp.Call.Args[0])
+				whole := false
+				SliceBack(sp.Call.Args[1], func(v ssa.Value) bool {
+					if mi, isM := v.(*ssa.MakeInterface); isM {
+						if at, isArr := mi.X.Type().Underlying().(*types.Array); isArr && at.Len() == 32 {
+							if CallResult(mi.X, 0, "crypto/sha256.Sum256") != nil {
+								whole = true
+							}
+						}
+					}
+					return true
+				})
+				ok = format == "%x" && whole
+				if !whole {
+					why = "the ID is not the hex of the whole 32-byte sha256 sum (a truncated ID makes two clients share a table slot by collision)"
+				}
+			}
+		}
+		c.Check("C01.G", "newID:full-width", p, f.Pos(), ok, "ID = hex of the whole 32-byte SHA-256 sum", why)
+		draws := Calls(f, "(*math/rand.Rand).Int63", "(*math/rand.Rand).Uint64", "(*math/rand.Rand).Int", "crypto/rand.Read", "(*math/rand.Rand).Read")
+		small := Calls(f, "(*math/rand.Rand).Intn", "(*math/rand.Rand).Int31", "(*math/rand.Rand).Int31n", "(*math/rand.Rand).Int63n", "(*math/rand.Rand).Uint32", "math/rand.Intn", "math/rand.Int")
+		c.Check("C01.G", "newID:63-bit-draw", p, f.Pos(), len(draws) == 1 && len(small) == 0, "one full-width draw from the proxy's generator per ID", "the ID is no longer derived from one full-width (≥63 bit) draw of the proxy's generator")
 	}
 
 	// ---- C01.S
